@@ -3,6 +3,7 @@ import I2N.Lemmas.TravProgress
 import I2N.Lemmas.TravTerm
 import I2N.Lemmas.TravGlobal
 import I2N.Lemmas.TravGlobalN
+import I2N.Lemmas.TravGlobalR
 import I2N.Model.TravMon
 /-!
 # C02 — Traversal terminates and every selected test gets a definite result  (partial by design)
@@ -975,5 +976,80 @@ theorem dead_holder_blocks_last_worker :
       (I2N.Trav.GlobalN.runStepsN gNeg3 (initState gNeg3 2 [])
         [(0, ⟨none, 0⟩, 144), (0, ⟨some "PASS", 1⟩, 144), (1, ⟨none, 0⟩, 144), (2, ⟨none, 0⟩, 144)]) =
       (true, true, some 1, true) := by decide +kernel
+
+/-! ## One worker, object roots allowed (`Lemmas/TravGlobalR.lean`) -/
+
+open I2N.Trav.Term I2N.Trav.Global I2N.Trav.GlobalR in
+/-- **single_worker_terminates_roots_partial**: `single_worker_terminates_partial` without `noRootsB`.  The class
+hypothesis becomes `classesOKRB g`: as `classesOKB`, and a class of setup tests may contain OBJECT ROOTS (two-step creation:
+pre-step on a copy of the root's results, then the test proper) provided `max_tries` is unset or `≤ 1` and the name of the
+creation pre-step is not counted by an observer that does not see the root (`statefulClassRoots`, the hypothesis of C03's
+`budget_stateful_roots`).  Then after ANY `24·Σ_n max(max_tries n, 1) + 23` `resume` steps — whatever the tests and the
+creation pre-steps do: pass, fail, never report — the only worker is `done` or `failed`.
+
+Why: besides `Basic`, the run keeps `RInv`: `tagsBelow`/`tagsOnce` also for object roots (`RN`), and while the worker is
+inside the pre-step of root `n` with placeholder tag `t` its copy is `results n ++ [placeholder t]` with every tag of
+`results n` below `t` (`R3`; there is nobody else who could touch the root).  Hence settling a test proper keeps the number
+of results also at a root, and a failed or never reported pre-step files exactly one result at the root
+(`GlobalR.stepR`/`ShapeR`); the potential `24·#results + qR(pc)` — `qR(pre … wait) = 12 + wait`, `qR(test … wait) = wait`,
+`qR(loop) = 11`, `qR(over) = 23` — grows with every step that does not end the traversal (`GlobalR.resume_cntR`), and
+`#results ≤ Σ_n max(max_tries n, 1)` by the C03 budgets, roots included (`GlobalR.total_le_resultBoundR`).
+
+MISSING for the full statement: object roots with `max_tries ≥ 2` (the C03 bound is FALSE there, `root_creation_hidden`) and
+stateless object roots (no budget invariant); the other class hypotheses as before.  For several workers `RInv` would need
+"an object root is cared for by one worker only" — not done. -/
+theorem single_worker_terminates_roots_partial (g : Graph) (h1 : g.workers.length = 1) (hr : rankedB g = true)
+    (hsym : edgeSymB g = true) (hflat : noFlatB g = true) (hwf : graphWF g = true) (ncls : Nat)
+    (hcls : ∀ n, n < g.nodes.length → (g.node n).cls < ncls) (hcl : classesOKRB g = true)
+    (store : List (String × List (String × String)))
+    (steps : List (Outcome × Nat)) (hfuel : ∀ x ∈ steps, bound g ≤ x.2)
+    (hlen : 24 * resultBound g + 23 ≤ steps.length) :
+    ((runSteps g (initState g ncls store) steps).wd 0).pc = .done ∨
+    ((runSteps g (initState g ncls store) steps).wd 0).pc = .failed := by
+  have st : Static g ncls := ⟨h1, hr, hsym, hflat, hwf, hcls⟩
+  have h := run_overR st hcl store steps hfuel hlen
+  cases hpc : ((runSteps g (initState g ncls store) steps).wd 0).pc with
+  | done => exact Or.inl rfl
+  | failed => exact Or.inr rfl
+  | test n ph dir uid tag wait => rw [hpc] at h; cases h
+  | loop => rw [hpc] at h; cases h
+  | bounce => rw [hpc] at h; cases h
+
+/-- one worker; the shared root, an object root (vm creation, `max_tries` unset) and a leaf below it -/
+def gRoot : Graph :=
+  { workers := [{ id := "net1", swarm := "localhost" }],
+    nodes := [{ cls := 0, owner := none, name := "all.internal.stateless.noop", pfx := "0", flat := true, sharedRoot := true,
+                cleanup := [(1, ["vm1"])] },
+              { cls := 1, owner := some 0, name := "all.root.vms.vm1.nets.localhost.net1", pfx := "1a1", objectRoot := true,
+                sets := [("vm1", "root")], objs := ["vm1"], setup := [(0, ["vm1"])], cleanup := [(2, ["vm1"])] },
+              { cls := 2, owner := some 0, name := "leaf.vm1.net1", pfx := "2", setup := [(1, ["vm1"])] }],
+    root := 0 }
+
+/-- `gRoot` meets the hypotheses of `single_worker_terminates_roots_partial` and NOT those of
+`single_worker_terminates_partial` -/
+example : gRoot.workers.length = 1 ∧ I2N.Trav.Term.rankedB gRoot = true ∧ edgeSymB gRoot = true ∧
+    I2N.Trav.Term.noFlatB gRoot = true ∧ graphWF gRoot = true ∧ I2N.Trav.GlobalR.classesOKRB gRoot = true ∧
+    I2N.Trav.Global.noRootsB gRoot = false ∧ I2N.Trav.Global.classesOKB gRoot = false ∧
+    I2N.Trav.Term.bound gRoot = 82 ∧ I2N.Trav.Global.resultBound gRoot = 3 := by decide +kernel
+def pcPreOf : Pc → Option (Nat × Nat)
+  | .test n .pre _ _ _ wait => some (n, wait)
+  | _ => none
+
+/-- a run in which the creation pre-step of the root never reports: after the first step the worker is inside the pre-step
+(working on a copy: the root has no result yet), after ten ticks still so.
+(What follows was checked with `#eval` only: with the twelfth step the placeholder itself is filed at the root and the leaf is
+started, the leaf passes and the worker is `done` after 13 steps; when the pre-step reports PASS / FAIL the root ends with the
+results `["PASS"]` / `["FAIL"]` and the worker is `done` after 4 / 3 steps.  These cannot be `decide`d: the name of the
+pre-step is built with `String.splitOn`, which the kernel does not evaluate, and it is compared as soon as a result is looked
+up or counted.) -/
+example :
+    (fun s : State => (pcPreOf (s.wd 0).pc, (s.nd 1).results.length, (s.wd 0).preResults.length))
+      (I2N.Trav.Global.runSteps gRoot (initState gRoot 3 []) [(⟨none, 0⟩, 82)]) = (some (1, 0), 0, 1) ∧
+    (fun s : State => (pcPreOf (s.wd 0).pc, (s.nd 1).results.length))
+      (I2N.Trav.Global.runSteps gRoot (initState gRoot 3 []) (List.replicate 11 (⟨none, 0⟩, 82))) = (some (1, 10), 0) := by
+  decide +kernel
+example := single_worker_terminates_roots_partial gRoot (by decide) (by decide) (by decide) (by decide) (by decide) 3
+  (by decide) (by decide +kernel) [] (List.replicate 95 (⟨none, 0⟩, 82))
+  (fun x hx => by rw [List.eq_of_mem_replicate hx]; decide) (by rw [List.length_replicate]; decide)
 
 end I2N.Props.C02
